@@ -60,10 +60,10 @@ Load ==
   /\ IF "ExecBeforeLoad" \in Dev THEN pc' = "loaded" /\ UNCHANGED <<fault, parsed, loaded, targetStarted, exitCode, events, complete>> /\ UNCHANGED fvars
      ELSE IF fault = "seccompdenied" /\ "SkipWhenUnsupported" \in Dev
           THEN pc' = "loaded" /\ UNCHANGED <<fault, parsed, loaded, targetStarted, exitCode, events, complete>> /\ UNCHANGED fvars
-     ELSE IF fault \in {"unknownsyscall", "nosyscalls", "kernelrefuses", "seccompdenied"} /\ Seen /\ "IgnoreLoadError" \notin Dev THEN Fail("load-error")
+     ELSE IF fault \in {"unknownsyscall", "foreignsyscall", "nosyscalls", "kernelrefuses", "seccompdenied"} /\ Seen /\ "IgnoreLoadError" \notin Dev THEN Fail("load-error")
      ELSE /\ pc' = "loaded"
           \* what is in force is the policy that was parsed: the file's policy only if the whole file was
-          /\ loaded' = (complete /\ fault \notin {"unknownsyscall", "nosyscalls", "kernelrefuses", "seccompdenied", "badyaml", "wrongtype", "unknownaction"})
+          /\ loaded' = (complete /\ fault \notin {"unknownsyscall", "foreignsyscall", "nosyscalls", "kernelrefuses", "seccompdenied", "badyaml", "wrongtype", "unknownaction"})
           /\ events' = Append(events, "seccomp-ok")
           /\ UNCHANGED <<fault, parsed, targetStarted, exitCode, complete>> /\ UNCHANGED fvars
 Exec ==
